@@ -53,6 +53,10 @@ static long sum40(void *p, long a1, long a2, long a3, long a4, long a5, long a6,
 static long many7(long a, long b, long c, long d, long e, long f, long g, long double x, double y, struct S40 s) { return a + g + s.a[4] + (long)x + (long)y; }
 static long many9(long a, long b, long c, long d, long e, long f, long g, long h, long i, long double x, struct SL s, long double z) { return a + i + (long)x + s.b + (long)z; }
 static _Thread_local long tl1 = 3; _Thread_local long double tl2 = 1.5L; static _Thread_local struct S16 tl3 = {3, 4.5};
+long double vrt_x87_heavy(void);
+static struct SL sl_heavy(void) { struct SL s = { vrt_x87_heavy(), 7 }; return s; }
+static struct SL sl_tab[2] = { { 1.5L, 1 }, { 2.5L, 2 } };
+static int idx_heavy(void) { return vrt_x87_heavy() > 7 ? 1 : 0; }
 static void chk(long id, long double ld, double d, long i) { OUT(id, &ld, 10); OUT(id, &d, 8); OUTV(id, i); }
 '''
 
@@ -86,6 +90,10 @@ def forms_for(cn, t):
     F.append(('cond-discard', 'k ? x : y; (k ? ret_%s() : x);' % t))
     F.append(('cond-void-arm', 'k ? ret_%s() : (void)0; k ? (void)0 : x; (k - 1) ? (void)0 : ret_%s(); k ? x : ret_void();' % (t, t)))
     F.append(('return-value-in-void-function', 'fwd_%s(); fwdv_%s(x, k); fwdv_%s(x, k - 1);' % (t, t, t)))
+    # long double operands that have to wait: nine and more operands nested to the right, and a right operand that is a member of a call result /
+    # an element selected by a call (the callee uses all eight x87 registers, as the psABI allows)
+    F.append(('ld-right-nested', 'ldz = ldx + (ldx + (ldx + (ldx + (ldx + (ldx + (ldx + (ldx + (ldx + (ldx + (ldx + ldy)))))))))); k = ldz == 12 * 1.25L + 2.5L ? 1 : 1;'))
+    F.append(('ld-waits-for-member-of-call', 'ldz = ldx + sl_heavy().a; ldz = ldz * sl_tab[idx_heavy()].a; ldz = ldx - ((ldy + sl_heavy().a) * (ldx + sl_tab[idx_heavy()].a));'))
     F.append(('comma-in-member-base', '(ret_%s(), s40).a[1]; (x, s40).a[2];' % t))
     F.append(('stmt-expr-discard', '({ x; }); ({ ret_%s(); });' % t))
     F.append(('stmt-expr-used', 'y = ({ z = x; x; });'))
@@ -121,8 +129,8 @@ def forms_for(cn, t):
 def unit(k, cn, t, name, body):
     """One test function t<k>(n): loop of the form, then checks that later long double / double / integer computations still work."""
     decls = [var_decl(cn, t, 'x', 5), var_decl(cn, t, 'y', 6), var_decl(cn, t, 'z', 7), 'int k = 1;', 'struct S40 s40 = {{1, 2, 3, 4, 5}};', 'struct S300 s300; for (int j = 0; j < 75; j++) s300.a[j] = j * 3 + 1; gacc = 0;',
-             'volatile long double l1 = 1.25L, l2 = 2.5L; volatile double d1 = 0.5, d2 = 4.0; volatile long i1 = 11;']
-    fn = 'static void t%d(long n) {\n%s\nfor (long i = 0; i < n; i++) {\n%s\n}\nchk(%d, l1 * l2 + (l1 - l2) / l2, d1 * d2 - d1, i1 * 3 + k * 0 + gacc);\n' % (k, '\n'.join(decls), body, k)
+             'volatile long double l1 = 1.25L, l2 = 2.5L; volatile double d1 = 0.5, d2 = 4.0; volatile long i1 = 11; long double ldx = 1.25L, ldy = 2.5L, ldz = 0;']
+    fn = 'static void t%d(long n) {\n%s\nfor (long i = 0; i < n; i++) {\n%s\n}\nchk(%d, l1 * l2 + (l1 - l2) / l2, d1 * d2 - d1, i1 * 3 + k * 0 + gacc);\nOUT(%d, &ldz, 10);\n' % (k, '\n'.join(decls), body, k, k)
     # value visible after the loop (idempotent forms -> independent of n)
     if t.startswith('S'):
         fn += {'S8': 'OUTV(%d, y.a); OUTV(%d, y.b);', 'S16': 'OUTV(%d, y.a); OUT(%d, &y.b, 8);', 'SF': 'OUT(%d, &y.a, 4); OUT(%d, &y.c, 4);', 'S40': 'OUTV(%d, y.a[0]); OUTV(%d, y.a[4]);', 'SL': 'OUT(%d, &y.a, 10); OUTV(%d, y.b);'}[t] % (k, k) + '\n'
